@@ -109,6 +109,8 @@ func getDomain(host string) string {
 		// IP literals are compared as whole addresses
 		return host
 	}
+	// the dot that ends a fully qualified name is not a label: example.com. is in the domain example.com
+	host = strings.TrimSuffix(host, ".")
 	ss := strings.Split(host, ".")
 	if len(ss) < 3 {
 		return host
